@@ -249,9 +249,15 @@ type EtcdWatchStream struct {
 	// SendErrOnEvents: Send fails only for responses that carry events (the client went away between the
 	// creation of its watch and the first change)
 	SendErrOnEvents error
-	Cancel          context.CancelFunc
-	Returned        bool
-	RetErr          error
+	// SendErrOnce: the next event-carrying Send fails, later ones succeed (a transient transport error);
+	// FailedSends counts the Sends it refused
+	SendErrOnce error
+	FailedSends int
+	// BeforeFail runs (without the stream's lock) before the refused Send returns: a Send that hangs for a while
+	BeforeFail func()
+	Cancel     context.CancelFunc
+	Returned   bool
+	RetErr     error
 }
 
 func NewEtcdWatchStream() *EtcdWatchStream {
@@ -267,6 +273,17 @@ func (s *EtcdWatchStream) Send(r *etcdserverpb.WatchResponse) error {
 	}
 	if s.SendErrOnEvents != nil && len(r.Events) > 0 {
 		return s.SendErrOnEvents
+	}
+	if s.SendErrOnce != nil && len(r.Events) > 0 {
+		err := s.SendErrOnce
+		s.SendErrOnce = nil
+		s.FailedSends++
+		if s.BeforeFail != nil {
+			s.mu.Unlock()
+			s.BeforeFail()
+			s.mu.Lock()
+		}
+		return err
 	}
 	s.Resps = append(s.Resps, r)
 	return nil
